@@ -347,7 +347,9 @@ var positions = []position{
 		read: func(k *kindInfo, v string) string { return fmt.Sprintf("proto.get_field(X, S.x_%s)", k.name) },
 		has:  func(k *kindInfo) string { return fmt.Sprintf("proto.has(X, S.x_%s)", k.name) }},
 	{name: "ext_rep_set_field", group: "repeated_extension", element: true, target: "m", ext: true,
-		op:   func(k *kindInfo, v string) string { return fmt.Sprintf("proto.set_field(m, S.xr_%s, [%s, %s])", k.name, okSrc(k), v) },
+		op: func(k *kindInfo, v string) string {
+			return fmt.Sprintf("proto.set_field(m, S.xr_%s, [%s, %s])", k.name, okSrc(k), v)
+		},
 		read: func(k *kindInfo, v string) string { return fmt.Sprintf("proto.get_field(X, S.xr_%s)[1]", k.name) }},
 	{name: "ext_rep_append", group: "repeated_extension", element: true, target: "m", ext: true,
 		op: func(k *kindInfo, v string) string {
